@@ -1,12 +1,17 @@
 import Texel.Proofs.Chain
 import Texel.Proofs.Output
+import Texel.Proofs.ChainEdges
 import Texel.Model.RingF
 /-! # C04 — shape fidelity: nothing moves more than half a pixel, nothing is lost
 
 Proved here: (a, whole clause) `C04_output_vertex_is_input_pixel`: every vertex of every ring `snapPolygonF` returns — after joining,
 spike removal, ring splitting, shell/hole cancellation, hole matching, reversal and the keep option — is the pixel on that level of a
 vertex of the input polygon, and that pixel contains the vertex (so the vertex moved by at most half a pixel in each axis, `C03_centre_*`).
-Its ingredients: (a, routed part) every vertex of every routed chain is the pixel of an input vertex (its centre is the pixel
+(b, for the routed boundary) `C04_routed_boundary_within_half_pixel`: every edge of the routed boundary of a ring — the closing edge
+included — joins two pixels one input edge is routed through, and every point of the straight line between two such pixel centres lies
+within half a pixel (both axes) of that input edge. After clean-up the output edges are runs of routed edges only for moderately collapsing
+polygons (C18); in general (b) and (c) are decided by the exact oracles.
+Ingredients of (a): (a, routed part) every vertex of every routed chain is the pixel of an input vertex (its centre is the pixel
 centre of some vertex of the input polygon), on every level, for every polygon; (a, clean-up part) spike removal
 (`kmpDeduplicate`, functional version) never invents a vertex. Edge distance (b) and coverage (c) are decided per generated case
 by the exact oracles `oracleC04ab`/`oracleC04c` on the implementation's output (geometric core open, see DESIGN §6 C01/C04). -/
@@ -38,6 +43,31 @@ theorem C04_output_vertex_is_input_pixel (g : Grid) (hres : 0 < g.res) (rings : 
     (l : Nat) (polys : Array Poly) (hm : (l, polys) ∈ res) (pg : Poly) (hpg : pg ∈ polys) (r : Array P) (hr : r ∈ pg) (v : P) (hv : v ∈ r) :
     ∃ ring ∈ rings, ∃ u ∈ ring, ∃ a, deepestAddr g u = some a ∧ v = (a.up g l).toP ∧ containsPoint u (g.box l (a.up g l)) = true :=
   snapPolygonF_vertex g hres rings levels cfg res h hlev l polys hm pg hpg r hr v hv
+
+/-- the straight line between the centres of `u` and `v` stays within half a pixel of an edge of `ring` -/
+def NearInput (g : Grid) (l : Nat) (ring : List Pt) (u v : P) : Prop :=
+  ∃ s ∈ ringEdges ring, ∃ p q : Quad, u = p.toP ∧ v = q.toP ∧ ∀ σ : ℚ, 0 ≤ σ → σ ≤ 1 → ∃ t : ℚ, 0 ≤ t ∧ t ≤ 1 ∧
+    |((1 - σ) * g.cx l p + σ * g.cx l q) - s.X t| ≤ (g.span l : ℚ) / 2 ∧ |((1 - σ) * g.cy l p + σ * g.cy l q) - s.Y t| ≤ (g.span l : ℚ) / 2
+
+/-- **C04, second clause, for the routed boundary**: every point of every edge of the routed boundary of a ring (the chain of routed
+edges `joinChain (routeRing …)`, closing edge included) lies within half a pixel — Chebyshev distance — of the input ring. Every grid,
+every level `l ≤ depth`, every polygon inside the grid, valid or not. -/
+theorem C04_routed_boundary_within_half_pixel (g : Grid) (hres : 0 < g.res) (rings : List (List Pt)) (addrs : List Quad)
+    (hins : insertAll g rings = some addrs) (ring : List Pt) (hring : ∀ v ∈ ring, v ∈ rings.flatten) (l : Nat) (hl : l ≤ g.depth)
+    (chain : List P) (h : joinChain (routeRing g (hotOf g addrs) l ring) = some chain) :
+    List.IsChain (NearInput g l ring) chain ∧ ∀ u v, chain.getLast? = some u → chain.head? = some v → NearInput g l ring u v := by
+  obtain ⟨h1, h2⟩ := routedBoundary_colisted g hres rings addrs hins ring hring l hl chain h
+  have key : ∀ u v, CoListed (routeRing g (hotOf g addrs) l ring) u v → NearInput g l ring u v := by
+    rintro u v ⟨r, hr, hu, hv⟩
+    unfold routeRing at hr
+    simp only [List.mem_map] at hr
+    obtain ⟨s, hs, rfl⟩ := hr
+    simp only [List.mem_map] at hu hv
+    obtain ⟨p, hp, rfl⟩ := hu
+    obtain ⟨q, hq, rfl⟩ := hv
+    exact ⟨s, hs, p, q, rfl, rfl, fun σ h0 h1 =>
+      routed_run_within_half_pixel g (hotOf g addrs) s hres (hotOf_closed g addrs) l hl p q hp hq σ h0 h1⟩
+  exact ⟨List.IsChain.imp (fun a b hc => key a b hc) h1, fun u v hu hv => key u v (h2 u v hu hv)⟩
 
 -- non-vacuity: a triangle on a 16×16 grid (res 4, depth 4) snapped at level 2 comes back with three vertices, each the pixel of its vertex
 #guard (snapPolygonF ⟨0, 0, 4, 4⟩ [[⟨2, 2⟩, ⟨50, 6⟩, ⟨30, 60⟩]] [2] ⟨false, false, false⟩).toOption.map (fun r => r.map fun e => (e.1, e.2.toList.map fun pg => pg.toList.map Array.toList))
